@@ -47,7 +47,9 @@ func BuildWorld(dir string, env []string, overlay map[string][]byte) *World {
 	fe := NewFactEngine(p, ts, cg, mr)
 	for _, members := range region {
 		for _, g := range members {
-			fe.inlineAt[g] = singleSite[g]
+			if singleSite[g] != nil {
+				fe.inlineAt[g] = singleSite[g]
+			}
 		}
 	}
 	w := &World{P: p, TS: ts, CG: cg, MR: mr, FE: fe, Region: region}
@@ -283,26 +285,33 @@ var regionRoots = []string{
 	"(*traversal.Operation).startQuery", "(*traversal.Operation).run", "(*traversal.Operation).addClosest",
 	"(*bep44.Wrapper).Put", "(*bep44.Wrapper).Get", "(k-nearest-nodes.Type).Push",
 	"(tokenServer).createToken", "(*tokenServer).ValidToken", "(*Server).transactionQuerySender",
-	"(*bucket).GetNode",
+	"(*bucket).GetNode", "(*Server).reply", "(*Server).sendError",
 }
 
 var singleSite = map[*ssa.Function]ssa.Instruction{}
+
+// goStarted: region members that are started with `go` at their only site.
+var goStarted = map[*ssa.Function]ssa.Instruction{}
 
 // foldRegion finds the module functions that are called (statically, synchronously) from exactly one
 // call instruction in the whole module, that instruction lying in root or in an already folded
 // helper (closures of those included), and binds their parameters to the arguments of that site.
 func foldRegion(p *Program, cg *CallGraph, ts *Terms, root *ssa.Function, isRoot map[*ssa.Function]bool) []*ssa.Function {
 	sites := map[*ssa.Function][]ssa.Instruction{}
-	other := map[*ssa.Function]bool{} // referenced in some other way (go, defer, value, callback)
+	goSites := map[*ssa.Function][]ssa.Instruction{}
+	other := map[*ssa.Function]bool{} // referenced in some other way (defer, value, callback)
 	for _, f := range p.ModFuncs {
 		for _, b := range f.Blocks {
 			for _, ins := range b.Instrs {
 				c := callInstrCommon(ins)
 				if c != nil {
 					if sc := c.StaticCallee(); sc != nil && p.IsMod(sc) {
-						if _, isCall := ins.(*ssa.Call); isCall {
+						switch ins.(type) {
+						case *ssa.Call:
 							sites[sc] = append(sites[sc], ins)
-						} else {
+						case *ssa.Go:
+							goSites[sc] = append(goSites[sc], ins)
+						default:
 							other[sc] = true
 						}
 					}
@@ -327,12 +336,34 @@ func foldRegion(p *Program, cg *CallGraph, ts *Terms, root *ssa.Function, isRoot
 		for _, fn := range append([]*ssa.Function{f}, allAnon(f)...) {
 			for _, b := range fn.Blocks {
 				for _, ins := range b.Instrs {
+					if gi, isGo := ins.(*ssa.Go); isGo {
+						// a named function started with `go` from its only site: a member of the region
+						// (containment, parameter binding) but never inlined - it runs later
+						g := gi.Call.StaticCallee()
+						if g == nil || !p.IsLib(g) || inRegion[g] || isRoot[g] || other[g] || len(sites[g]) != 0 || len(goSites[g]) != 1 || g.Parent() != nil || g.Synthetic != "" || len(g.Blocks) == 0 {
+							continue
+						}
+						if obj, ok := g.Object().(*types.Func); !ok || obj.Exported() || depthOf[f] >= 3 {
+							continue
+						}
+						inRegion[g] = true
+						depthOf[g] = depthOf[f] + 1
+						members = append(members, g)
+						goStarted[g] = gi
+						for i, prm := range g.Params {
+							if i < len(gi.Call.Args) {
+								ts.paramBind[prm] = gi.Call.Args[i]
+							}
+						}
+						work = append(work, g)
+						continue
+					}
 					call, ok := ins.(*ssa.Call)
 					if !ok {
 						continue
 					}
 					g := call.Call.StaticCallee()
-					if g == nil || !p.IsLib(g) || inRegion[g] || isRoot[g] || other[g] || len(sites[g]) != 1 || g.Parent() != nil || g.Synthetic != "" || len(g.Blocks) == 0 {
+					if g == nil || !p.IsLib(g) || inRegion[g] || isRoot[g] || other[g] || len(sites[g]) != 1 || len(goSites[g]) != 0 || g.Parent() != nil || g.Synthetic != "" || len(g.Blocks) == 0 {
 						continue
 					}
 					if obj, ok := g.Object().(*types.Func); !ok || obj.Exported() {
